@@ -80,6 +80,8 @@ class ContentType:
 
     def __init__(self, content_type_raw_line: str) -> None:
         self.type, self.options = parse_header(content_type_raw_line)
+        # type and subtype are case-insensitive (RFC 9110, 8.3.1)
+        self.type = self.type.lower()
 
     def __repr__(self) -> str:
         return f"<{self.__class__.__qualname__}: {self}>"
